@@ -166,6 +166,11 @@ func encryptSide(r *mon.Run) {
 	}
 	cases = append(cases, encCase{list: []string{"X1"}, length: 300*65536 + 5, via: ax.ViaWrite},
 		encCase{list: []string{"E1"}, length: 257 * 65536, via: ax.ViaCopyPlain})
+	// passphrases of every length around the block sizes of the hash behind
+	// the key derivation (55/56, 63/64/65, 119/120, 127/128/129) and long ones
+	for _, n := range []int{1, 2, 31, 32, 33, 55, 56, 57, 63, 64, 65, 66, 119, 120, 127, 128, 129, 200, 1000} {
+		cases = append(cases, encCase{list: []string{fmt.Sprintf("SL%d", n)}, length: 10 + n, armored: n%2 == 0, logN: 1 + n%5})
+	}
 	// passphrase files at every work factor 1..12 (+ the default 18 in thorough)
 	for w := 1; w <= 12; w++ {
 		cases = append(cases, encCase{list: []string{"S1"}, length: w * 13, armored: w%2 == 0, logN: w})
@@ -455,6 +460,9 @@ func referenceFilesSide(r *mon.Run) {
 	}
 	for w := 1; w <= 12; w++ {
 		cases = append(cases, rc{[]string{fmt.Sprintf("S%d", 1+w%2)}, w * 7, w % 3})
+	}
+	for _, n := range []int{1, 32, 55, 56, 63, 64, 65, 120, 127, 128, 129, 1000} {
+		cases = append(cases, rc{[]string{fmt.Sprintf("SL%d", n)}, n, n % 3})
 	}
 	// more than 256 chunks, written by the reference
 	cases = append(cases, rc{[]string{"X1"}, 300*65536 + 5, 0}, rc{[]string{"E2"}, 257 * 65536, 1})
